@@ -109,6 +109,24 @@ check("C06", "model_checking",
       "TLA+ spec model-checked by TLC (safety + liveness) + simulated-rank replay vs rounded-serial oracle + TLC validation of collective logs",
       "DESIGN.md §5 C06")
 
+check("C07", "model_checking",
+      "spec/SplitRecovery.FlatShards + Recover: TLC checks that the recovered pieces of all shard ranks partition every parameter "
+      "(ExactlyOnceAcrossShards) for every shape list in bounds; ShampooDist covers one replicate column (HSDP). The spec's shard metadata "
+      "and pieces (evaluated by TLC) drive the real FSDPDistributor / HSDPDistributor on simulated ranks; the oracle is the serial "
+      "optimizer on the recovered sub-tensors as independent parameters (communicated quantity rounded for HSDP), bitwise after every "
+      "step on every rank; per-column gather logs are validated by TLC.",
+      "Shard boundaries come from the spec's flat-parameter model; real FSDP wrapping is not in the loop. Threaded process group as transport.",
+      "TLA+ spec model-checked by TLC + spec-as-oracle shard layout + simulated-rank replay (bitwise) + TLC validation of collective logs",
+      "DESIGN.md §5 C07")
+check("C08", "model_checking",
+      "spec/SplitRecovery.Dim0Pieces: TLC checks that dim-0 chunking gives one slab per rank partitioning every parameter; ShampooDist covers "
+      "one replicate column (hybrid). Real DTensor parameters and gradients (built from the spec's slabs) run under FullyShardDistributor / "
+      "HybridShardDistributor on simulated ranks; oracle: the serial optimizer on the local slabs (rounded for hybrid), bitwise after every "
+      "step on every rank incl. ranks with empty local shards of some parameters; gather logs validated by TLC.",
+      "DTensors are built with from_local (no collectives). Threaded process group as transport.",
+      "TLA+ spec model-checked by TLC + spec-as-oracle shard layout + simulated-rank replay (bitwise) + TLC validation of collective logs",
+      "DESIGN.md §5 C08")
+
 ALL = [f"C{i:02d}" for i in range(1, 19)]
 
 
